@@ -630,6 +630,32 @@ def copy_rule(facts: CppFacts, templates: Templates):
                     "`other.Ok() && backing_.TryToCopyFrom(other.backing_, other.IntrinsicSize...)`", TEMPLATES)
         if "IntrinsicSizeIn" not in b:
             res.add("structure_view_class|TryToCopyFrom|size", "structure TryToCopyFrom does not copy the source's intrinsic size", TEMPLATES)
+    # siblings: CopyFrom, TryToCopyFrom and UncheckedCopyFrom of a structure view copy the same extent -- the *source's*
+    # intrinsic size, read through the other view (the destination's own size depends on what it held before the copy:
+    # for `1 [+length] UInt:8[] payload` a destination holding a shorter packet would receive a truncated copy)
+    for meth in ("CopyFrom", "TryToCopyFrom", "UncheckedCopyFrom"):
+        mm3 = re.search(r"(?:void|bool)\s+" + meth + r"\s*\(\s*Generic\$\{name\}View<OtherStorage>\s+(\w+)\s*\)\s*const\s*\{(.*?)\n  \}", sv, re.S)
+        if not mm3:
+            raise AnalysisError(f"structure_view_class: {meth} not recognised")
+        res.instances += 1
+        other, b3 = mm3.group(1), " ".join(mm3.group(2).split())
+        call = re.search(r"backing_\s*\.\s*(?:Unchecked|TryTo)?CopyFrom\s*\((.*)\)\s*;", b3)
+        if not call:
+            res.add(f"structure_view_class|{meth}|forward", f"structure {meth} no longer forwards to backing_.*CopyFrom", TEMPLATES)
+            continue
+        args = call.group(1)
+        depth, cut = 0, None
+        for i_, ch in enumerate(args):
+            depth += ch in "(<"
+            depth -= ch in ")>"
+            if ch == "," and depth == 0:
+                cut = i_
+                break
+        size_arg = args[cut + 1:].strip() if cut is not None else ""
+        if not re.match(re.escape(other) + r"\s*\.\s*IntrinsicSizeIn\$\{units\}\s*\(\s*\)", size_arg):
+            res.add(f"structure_view_class|{meth}|size-of-source", f"structure {meth} copies `{size_arg[:60]}` units: the extent must be the "
+                    f"source's own `{other}.IntrinsicSizeIn${{units}}()`; the destination's size depends on its previous contents, so a "
+                    "dynamically sized structure is copied short or long and the destination does not Equals() the source", TEMPLATES)
     res.samples = [" ".join(u.body.split())[:120], " ".join(t.body.split())[:160]]
     res.analysed = ["runtime/cpp/emboss_memory_util.h", TEMPLATES]
     return res
@@ -1109,7 +1135,7 @@ def lowestdigit(facts: CppFacts):
     return res
 
 
-def enumtext(facts: CppFacts, clauses=("decode", "narrow")):
+def enumtext(facts: CppFacts, clauses=("decode", "narrow", "writer")):
     """R-ENUMTEXT (C19/C06): an enum field can hold any value of its underlying type, and the writer prints unnamed values
     as numbers of that type.  The reader is the exact inverse when it decodes a numeric token (leading digit or `-`)
     into `underlying_type<ValueType>::type` -- DecodeInteger then rejects every number the enum cannot hold.  The older
@@ -1184,6 +1210,28 @@ def enumtext(facts: CppFacts, clauses=("decode", "narrow")):
                     "or the enum's underlying type", TU, fn[0].line, "ReadEnumViewFromTextStream")
     res.samples = [f"branches: {branches}"]
     res.analysed = [TU]
+    # writer side: the number printed for an unnamed value is the value in the enum's own underlying type -- the type the
+    # reader decodes into.  A fixed-width cast (`static_cast<int64_t>(view->Read())`) prints 2^63.. of an unsigned
+    # 64-bit enum as negative numbers, which the reader rejects.
+    if "writer" in clauses:
+        wf = [f_ for f_ in facts.functions if f_.name == "WriteEnumViewToTextStream"]
+        if not wf:
+            raise AnalysisError("WriteEnumViewToTextStream not found")
+        wbody = re.sub(r"/\*\*/", "", _CM.sub("", wf[0].body))
+        res.instances += 1
+        wm = re.search(r"WriteIntegerToTextStream\s*\(\s*(.*?)\s*,\s*stream\b", wbody, re.S)
+        if not wm:
+            res.add(f"{TU}|WriteEnumViewToTextStream|numeric", "the enum text writer no longer prints the numeric value through WriteIntegerToTextStream",
+                    TU, wf[0].line, "WriteEnumViewToTextStream")
+        else:
+            arg = " ".join(wm.group(1).split())
+            cast = re.match(r"static_cast\s*<\s*(.*)\s*>\s*\(\s*view\s*->\s*Read\s*\(\s*\)\s*\)$", arg)
+            ty = cast.group(1) if cast else None
+            if not ty or "underlying_type" not in ty or "ValueType" not in ty:
+                res.add(f"{TU}|WriteEnumViewToTextStream|numeric-type", f"the enum text writer prints `{arg[:80]}`: the numeric form must be the value in "
+                        "`underlying_type<View::ValueType>::type`, the type the reader decodes into; through a fixed 64-bit signed type the "
+                        "values 2^63..2^64-1 of an unsigned enum are written as negative numbers and cannot be read back",
+                        TU, wf[0].line, "WriteEnumViewToTextStream")
     return res
 
 
